@@ -1,5 +1,5 @@
 SPECIFICATION Spec
-CONSTANT MaxBody = 5
+CONSTANT MaxBody = 4
 VIEW View
 INVARIANT RefInv
 INVARIANT SenderInv
